@@ -48,3 +48,11 @@ Definition run_waiter (c : wval * list val * list (list nat)) : J :=
         JL [JO J_of (collect (run_schedule (map (fun i => (i, res i)) order)) w);
             JL (map (fun pre => JB (match collect (run_schedule (map (fun i => (i, res i)) pre)) w with Some _ => true | None => false end))
                     (prefixes order))]) scheds).
+
+(* chain schedules: the order of completion is forced by the awaitables themselves; observation = final value and that order *)
+Definition run_waiter_chain (c : wval * list val * list (list nat)) : J :=
+  let '(w, results, scheds) := c in
+  let res := fun i => nth i results (VLeaf 0) in
+  JL (map (fun order =>
+        JL [JO J_of (collect (run_schedule (map (fun i => (i, res i)) order)) w);
+            JL (map (fun i => JZ (Z.of_nat i)) order)]) scheds).
